@@ -9,6 +9,7 @@ import (
 	"io"
 	"math/rand/v2"
 	"net"
+	"sort"
 	"strconv"
 
 	"golang.org/x/crypto/ssh"
@@ -28,6 +29,7 @@ type Listener struct {
 	Path       string `json:"path"`
 	MaxAccept  int    `json:"max_accept"`  // the application stops accepting after this many connections
 	CloseAfter int    `json:"close_after"` // close once this many were accepted; -1 = only when the system is idle
+	NoClose    bool   `json:"no_close"`    // the application never closes this listener (it goes away with the connection)
 }
 
 // Open is one forwarded channel open sent by the server.
@@ -89,14 +91,53 @@ func gen(r *rand.Rand, prop, tier string, index int) any {
 		if r.IntN(2) == 0 && l.MaxAccept > 0 {
 			l.CloseAfter = r.IntN(l.MaxAccept + 1)
 		}
+		if l.CloseAfter == -1 && r.IntN(4) == 0 {
+			l.NoClose = true
+		}
 		s.Listeners = append(s.Listeners, l)
 	}
-	no := r.IntN(21)
-	if tier == "quick" && no > 8 && r.IntN(3) > 0 {
-		no = r.IntN(9)
+	// 0..20 opens per listener; most runs stay small, some saturate the
+	// connection's internal buffers (tens of undelivered opens)
+	no := 0
+	perListener := make([]int, len(s.Listeners))
+	for i := range perListener {
+		k := r.IntN(9)
+		if r.IntN(4) == 0 {
+			k = r.IntN(21)
+		}
+		if r.IntN(12) == 0 {
+			k = 20
+		}
+		perListener[i] = k
+		no += k
+	}
+	if len(s.Listeners) >= 2 && r.IntN(12) == 0 {
+		// saturation: one listener is never serviced nor closed while tens of
+		// forwards are outstanding
+		s.Listeners[0].MaxAccept, s.Listeners[0].CloseAfter, s.Listeners[0].NoClose = 0, -1, r.IntN(2) == 0
+		if r.IntN(2) == 0 {
+			for i := range s.Listeners {
+				s.Listeners[i].MaxAccept, s.Listeners[i].CloseAfter = 0, -1
+			}
+		}
+		no = 0
+		for i := range perListener {
+			perListener[i] = 16 + r.IntN(5)
+			no += perListener[i]
+		}
+	}
+	var targets []int
+	for i, k := range perListener {
+		for ; k > 0; k-- {
+			targets = append(targets, i)
+		}
+	}
+	r.Shuffle(len(targets), func(i, j int) { targets[i], targets[j] = targets[j], targets[i] })
+	if r.IntN(3) == 0 { // grouped by listener instead of interleaved
+		sort.Ints(targets)
 	}
 	for i := 0; i < no; i++ {
-		t := r.IntN(len(s.Listeners))
+		t := targets[i]
 		l := s.Listeners[t]
 		o := Open{Type: l.network(), Host: l.Host, Port: uint32(l.Port), Path: l.Path, Target: t, Exact: true, After: r.IntN(len(s.Listeners) + 1)}
 		switch r.IntN(8) {
@@ -375,8 +416,8 @@ func (r *run) onIdle() bool {
 	switch r.phase {
 	case 0:
 		r.phase = 1
-		for _, st := range r.ls {
-			if !st.wantClose {
+		for i, st := range r.ls {
+			if !st.wantClose && !r.scn.Listeners[i].NoClose {
 				st.wantClose = true
 				rt.Wake(st)
 			}
@@ -396,7 +437,27 @@ func (r *run) onIdle() bool {
 						pend++
 					}
 				}
-				r.c.Violate(Prop, "close-hang", "Close of listener %d (%s %s) never returned: the system is quiescent with Close still blocked; %d connections accepted, %d forwarded opens for it unanswered. Blocked tasks: %v", i, l.network(), l.addr(), st.accepted, pend, r.c.Sim.Unfinished())
+				// Is another listener still open whose application does not
+				// accept, with forwards queued for it? Then the connection's
+				// read loop is blocked behind that listener (the documented
+				// "listener must be serviced" limitation), which is a
+				// different failure from Close blocking on its own.
+				oracle := "close-hang"
+				for j, o := range r.ls {
+					if j == i || !o.registered || o.closeCalled {
+						continue
+					}
+					q := 0
+					for k, op := range r.scn.Opens {
+						if op.Exact && op.Target == j && r.openRes[k] == "" {
+							q++
+						}
+					}
+					if q >= 2 {
+						oracle = "close-hang-behind-unserviced-listener"
+					}
+				}
+				r.c.Violate(Prop, oracle, "Close of listener %d (%s %s) never returned: the system is quiescent with Close still blocked; %d connections accepted, %d forwarded opens for it unanswered. Blocked tasks: %v", i, l.network(), l.addr(), st.accepted, pend, r.c.Sim.Unfinished())
 				return false
 			}
 			if st.closeDone && st.postAccept == "" {
